@@ -42,9 +42,11 @@ type Model interface {
 
 // Job asks a worker to expand one state.
 type Job struct {
-	Path    []string
-	Choices []int
-	Replay  bool // only replay Path/Choices and check the last transition
+	Path     []string
+	Choices  []int
+	Replay   bool   // only replay Path/Choices and check the last transition
+	ListOnly bool   // only report the enabled events
+	Only     string // expand only this event
 }
 
 // Succ is one successor found.
@@ -58,6 +60,7 @@ type Succ struct {
 // JobResult is the worker's answer.
 type JobResult struct {
 	Job        Job
+	Enabled    []string
 	Succs      []Succ
 	Violations []common.Violation
 	Executions int
@@ -174,7 +177,14 @@ func Expand(m Model, job Job) *JobResult {
 	}
 	base := len(r0.Choices)
 	seenV := map[string]bool{}
+	if job.ListOnly {
+		res.Enabled = enabled
+		return res
+	}
 	for _, ev := range enabled {
+		if job.Only != "" && ev != job.Only {
+			continue
+		}
 		path := append(append([]string(nil), job.Path...), ev)
 		// depth-first over the data choices made inside the new event
 		var dfs func(prefix []int)
@@ -307,78 +317,99 @@ func SearchF(addViol func(common.Violation), addSample func(any), workerArgs []s
 	st.States = 1
 	for depth := 0; depth < maxDepth && len(frontier) > 0; depth++ {
 		st.LevelSizes = append(st.LevelSizes, len(frontier))
-		jobCh := make(chan node)
-		resCh := make(chan *JobResult)
-		var wg sync.WaitGroup
-		np := procs
-		if np > len(frontier) {
-			np = len(frontier)
-		}
 		var stopMu sync.Mutex
 		stopped := false
-		for i := 0; i < np; i++ {
-			wg.Add(1)
-			go func() {
-				defer wg.Done()
-				var w *worker
-				for nd := range jobCh {
-					if !deadline.IsZero() && time.Now().After(deadline) {
-						stopMu.Lock()
-						stopped = true
-						stopMu.Unlock()
-						continue
-					}
-					if w == nil || w.n >= 400 {
-						if w != nil {
-							w.closer()
+		runJobs := func(jobs []Job, handle func(*JobResult)) {
+			jobCh := make(chan Job)
+			resCh := make(chan *JobResult)
+			var wg sync.WaitGroup
+			np := procs
+			if np > len(jobs) {
+				np = len(jobs)
+			}
+			for i := 0; i < np; i++ {
+				wg.Add(1)
+				go func() {
+					defer wg.Done()
+					var w *worker
+					for jb := range jobCh {
+						if !deadline.IsZero() && time.Now().After(deadline) {
+							stopMu.Lock()
+							stopped = true
+							stopMu.Unlock()
+							continue
 						}
-						var err error
-						w, err = startWorker(workerArgs)
-						if err != nil {
-							resCh <- &JobResult{Err: err.Error()}
+						if w == nil || w.n >= 2000 {
+							if w != nil {
+								w.closer()
+							}
+							var err error
+							w, err = startWorker(workerArgs)
+							if err != nil {
+								resCh <- &JobResult{Job: jb, Err: err.Error()}
+								w = nil
+								continue
+							}
+						}
+						w.n++
+						b, _ := json.Marshal(jb)
+						w.stdin.Write(b)
+						w.stdin.WriteByte('\n')
+						w.stdin.Flush()
+						if !w.stdout.Scan() {
+							resCh <- &JobResult{Job: jb, Err: "worker died"}
+							w.closer()
 							w = nil
 							continue
 						}
+						var r JobResult
+						if err := json.Unmarshal(w.stdout.Bytes(), &r); err != nil {
+							resCh <- &JobResult{Job: jb, Err: "bad worker output: " + err.Error()}
+							continue
+						}
+						resCh <- &r
 					}
-					w.n++
-					b, _ := json.Marshal(Job{Path: nd.path, Choices: nd.choices})
-					w.stdin.Write(b)
-					w.stdin.WriteByte('\n')
-					w.stdin.Flush()
-					if !w.stdout.Scan() {
-						resCh <- &JobResult{Job: Job{Path: nd.path}, Err: "worker died"}
+					if w != nil {
 						w.closer()
-						w = nil
-						continue
 					}
-					var r JobResult
-					if err := json.Unmarshal(w.stdout.Bytes(), &r); err != nil {
-						resCh <- &JobResult{Err: "bad worker output: " + err.Error()}
-						continue
-					}
-					resCh <- &r
+				}()
+			}
+			go func() {
+				for _, jb := range jobs {
+					jobCh <- jb
 				}
-				if w != nil {
-					w.closer()
-				}
+				close(jobCh)
+				wg.Wait()
+				close(resCh)
 			}()
+			for r := range resCh {
+				if r.Err != "" {
+					fmt.Fprintf(os.Stderr, "space: job on %v failed: %s\n", r.Job.Path, r.Err)
+					st.Exhaustive = false
+					st.CapHit = "worker error: " + r.Err
+					continue
+				}
+				handle(r)
+			}
 		}
-		go func() {
-			for _, nd := range frontier {
-				jobCh <- nd
+		// phase A: enabled events of every frontier state; phase B: one job per (state, event)
+		var listJobs []Job
+		for _, nd := range frontier {
+			listJobs = append(listJobs, Job{Path: nd.path, Choices: nd.choices, ListOnly: true})
+		}
+		var evJobs []Job
+		runJobs(listJobs, func(r *JobResult) {
+			st.Executions += r.Executions
+			for _, e := range r.Enabled {
+				evJobs = append(evJobs, Job{Path: r.Job.Path, Choices: r.Job.Choices, Only: e})
 			}
-			close(jobCh)
-			wg.Wait()
-			close(resCh)
-		}()
+		})
+		sort.Slice(evJobs, func(i, j int) bool {
+			a, b := strings.Join(evJobs[i].Path, ",")+"/"+evJobs[i].Only, strings.Join(evJobs[j].Path, ",")+"/"+evJobs[j].Only
+			return a < b
+		})
 		var next []node
-		for r := range resCh {
-			if r.Err != "" {
-				fmt.Fprintf(os.Stderr, "space: expansion of %v failed: %s\n", r.Job.Path, r.Err)
-				st.Exhaustive = false
-				st.CapHit = "worker error: " + r.Err
-				continue
-			}
+		runJobs(evJobs, func(r *JobResult) {
 			st.Executions += r.Executions
 			st.Events += r.Events
 			st.Blocked += r.Blocked
@@ -403,7 +434,7 @@ func SearchF(addViol func(common.Violation), addSample func(any), workerArgs []s
 					}
 				}
 			}
-		}
+		})
 		stopMu.Lock()
 		if stopped {
 			st.Exhaustive = false
